@@ -2,7 +2,7 @@
    with the observations, painting by the nearest-mutation rule, and the checkable
    predicates used in the statements of Props/C20.v.  All executable. *)
 From Coq Require Import List ZArith NArith Bool Lia.
-From TskVerif Require Import Base.Common C20.Model.
+From TskVerif Require Import Base.Common Gen.Generated C20.Model.
 Import ListNotations.
 Open Scope Z_scope.
 
@@ -167,3 +167,55 @@ Fixpoint assigned (K : nat) (t : tree) (s : N) : ltree :=
       let s' := if bit_is_set Su s then s else smallest Su in
       LNode s' (map (fun c => assigned K c s') ch)
   end.
+
+(* --- L2 self-consistency: the two facts about the array code that are tied only
+   differentially (C20/ArrayProofs.v proves the rest of L2 = L0 from them) ------------- *)
+(* left-to-right postorder of a tree, as tsk_tree_postorder_from produces it *)
+Fixpoint post_ids (t : tree) : list Z :=
+  match t with Node u _ ch => flat_map post_ids ch ++ [u] end.
+
+(* optimal_set[u] after the initialisation loop 7252-7266 (fx: repaired variant) *)
+Definition init_set (fx : bool) (o : obs) : N :=
+  match o with
+  | NotSample => 0%N
+  | Missing => if fx then 0%N else UINT64_MAX
+  | Obs g => set_bit 0 g
+  end.
+
+Fixpoint init_okb (fx : bool) (os : list N) (t : tree) : bool :=
+  match t with
+  | Node u o ch =>
+      (match get os u with Ok x => N.eqb x (init_set fx o) | _ => false end) && forallb (init_okb fx os) ch
+  end.
+
+Definition l2_side_conditions (fx : bool) (ta : tree_arrays) (genotypes : list Z) : bool :=
+  let Nn := zlen (ta_flags ta) in
+  if negb (zlen genotypes =? zlen (ta_samples ta)) then true else
+  match init_sets fx (ta_samples ta) genotypes (repeat 0%N (S (length (ta_flags ta)))) 0 0 with
+  | Err _ => true                       (* rejected genotypes: nothing to check *)
+  | Ok (os0, _, _) =>
+      match rose_of_arrays ta genotypes, postorder_from_virtual_root ta with
+      | Ok roots, Ok nodes =>
+          forallb (init_okb fx os0) roots &&
+          (match get os0 Nn with Ok x => N.eqb x 0 | _ => false end) &&
+          list_eqb Z.eqb nodes (flat_map post_ids roots ++ [Nn]) &&
+          nodupb (forest_ids roots) &&
+          (fsize roots <? length (ta_left_child ta))%nat
+      | _, _ => false
+      end
+  | _ => false
+  end.
+
+(* num_alleles after 7272-7283, from the maximum genotype na0 of the initialisation loop *)
+Definition final_num_alleles (na0 : Z) (anc : option Z) : Z :=
+  match anc with
+  | None => na0 + 1
+  | Some a => if (a >=? na0 + 1)%Z then a + 1 else na0 + 1
+  end%Z.
+
+(* correspondence term: both cores must reproduce the implementation's observation, and
+   the side conditions of the L2 = L0 theorem must hold on this input *)
+Definition check_case (ta : tree_arrays) (genotypes : list Z) (anc : anc_arg) (nal : Z) (o : mm_obs) : bool :=
+  mm_obs_eqb (py_map_mutations c_map_mutations ta genotypes anc nal) o &&
+  mm_obs_eqb (py_map_mutations c_map_mutations_rose ta genotypes anc nal) o &&
+  l2_side_conditions c20_missing_through_hartigan ta genotypes.
